@@ -170,6 +170,7 @@ def rat_sum(rats) -> Rat:
 
 
 TACTIC = None
+z3.set_param("memory_max_size", int(__import__("os").environ.get("VERIF_Z3_MEM_MB", "3000")))
 
 
 def _tactic():
@@ -186,11 +187,45 @@ class Decider:
               'sat' (model returned), 'unknown' (inconclusive, never counted as discharged).
     """
 
-    def __init__(self, constraints, timeout_ms: int = 20000):
+    def __init__(self, constraints, timeout_ms: int = 20000, params: dict | None = None):
         self.constraints = list(constraints)
         self.timeout_ms = timeout_ms
         self.queries = 0
         self.seconds = 0.0
+        self.params = params  # name -> z3 Real: enables the counterexample-hunting pre-pass of differ()
+
+    def hunt(self, formula, free: int = 2, rounds: int = 3):
+        """Bug hunting only: the same query with all but `free` parameters fixed to rationals (an
+        under-approximation).  'sat' is a genuine counterexample; anything else proves nothing."""
+        if not self.params:
+            return None
+        from fractions import Fraction as Fr
+
+        names = sorted(self.params)
+        grid = [Fr(1, 3), Fr(2, 5), Fr(1, 7), Fr(3, 8), Fr(5, 11), Fr(2, 9), Fr(4, 13), Fr(1, 2), Fr(3, 10), Fr(1, 5)]
+        for rnd in range(rounds):
+            keep = set(names[(rnd * free) % max(len(names), 1):][:free])
+            fixed = {}
+            for i, n in enumerate(names):
+                if n not in keep:
+                    # moment parameters of order >= 2 must stay below the single moments: scale by the order
+                    order = n.rsplit("|", 1)[-1].count(",") + 1 if n.startswith("mu|") else 1
+                    fixed[n] = grid[(i * 7 + rnd * 3 + (i * i) % 5) % len(grid)] ** order
+            subs = [(self.params[n], z3.RealVal(str(v))) for n, v in fixed.items()]
+            f2 = z3.substitute(formula, *subs)
+            cons = [z3.substitute(c, *subs) for c in self.constraints]
+            s = z3.Solver()
+            s.set("timeout", min(self.timeout_ms, 3000))
+            for c in cons:
+                s.add(c)
+            s.add(f2)
+            try:
+                r = str(s.check())
+            except z3.Z3Exception:
+                r = "unknown"
+            if r == "sat":
+                return _PartialModel(s.model(), {self.params[n].get_id(): z3.RealVal(str(v)) for n, v in fixed.items()})
+        return None
 
     def check(self, *formulas):
         t0 = time.time()
@@ -221,11 +256,29 @@ class Decider:
             return self.check(other.num() != ZERO)
         # a.n/a.d vs b.n/b.d: cross-multiply, cancel common positive factors on both sides
         left = Rat(a.n + b.d, b.n + a.d)
-        return self.check(prod(left.n) != prod(left.d))
+        formula = prod(left.n) != prod(left.d)
+        verdict, model, dt = self.check(formula)
+        if verdict == "unknown":
+            t0 = time.time()
+            pm = self.hunt(formula)
+            if pm is not None:
+                return "sat", pm, dt + time.time() - t0
+        return verdict, model, dt
 
     def positive(self, a: Rat):
         """Reachability twin: constraints are satisfiable together with a > 0."""
         return self.check(a.num() > 0, a.den() > 0)
+
+
+class _PartialModel:
+    """z3 model of an under-approximated query, completed with the rationals that were substituted."""
+
+    def __init__(self, model, fixed):
+        self.model, self.fixed = model, fixed
+
+    def eval(self, v, model_completion=True):
+        hit = self.fixed.get(v.get_id())
+        return hit if hit is not None else self.model.eval(v, model_completion=model_completion)
 
 
 def differ_formula(a: Rat, b: Rat):
@@ -241,4 +294,11 @@ def differ_formula(a: Rat, b: Rat):
 def differ_any(decider: Decider, pairs):
     """One query for a whole family of value assignments: exists parameters and i with a_i != b_i."""
     fs = [differ_formula(a, b) for a, b in pairs]
-    return decider.check(z3.Or(fs) if len(fs) != 1 else fs[0])
+    formula = z3.Or(fs) if len(fs) != 1 else fs[0]
+    verdict, model, dt = decider.check(formula)
+    if verdict == "unknown":
+        t0 = time.time()
+        pm = decider.hunt(formula)
+        if pm is not None:
+            return "sat", pm, dt + time.time() - t0
+    return verdict, model, dt
